@@ -99,7 +99,9 @@ def floatspecs():
 
 
 def structures():
-    leaf = st.one_of(floatspecs(), floatspecs(), V.ints(), V.strs(False), V.NONE, V.BOOLS, V.bytess(2))
+    # class objects and objects that have a length but are not iterable: data that only LOOKS like a container
+    odd = st.one_of(st.sampled_from(['list', 'dict', 'str', 'tuple', 'float']).map(lambda n: ['T', n]), st.integers(0, 2).map(lambda n: ['Y', n]))
+    leaf = st.one_of(floatspecs(), floatspecs(), V.ints(), V.strs(False), V.NONE, V.BOOLS, V.bytess(2), odd)
     hk = st.one_of(V.strs(False), V.ints(), floatspecs())
 
     def ext(ch):
